@@ -1,4 +1,38 @@
 import XPathV.Model.Api
-/-! # Property C03 — theorems (placeholder header; filled in below) -/
+import XPathV.Lemmas.Facts
+/-!
+# C03 — positional predicates on child steps use the XPath proximity position
+-/
 namespace XPathV.Theorems.C03
+open XPathV XPathV.Model XPathV.Facts NumAlg
+
+variable {F : Type} [NumAlg F]
+
+/-- a child step numbers the matching children of **each** parent from 1: the position a filter
+reads (`childQuery.posit`) restarts for every input node -/
+theorem child_positions_restart (d : Doc) (cfg : ECfg) (a : AxisInfo) (inp : Plan) (c : Ref) (ins : List Item)
+    (h : sel (F := F) d cfg inp c = .ok ins) :
+    sel (F := F) d cfg (.child a inp) c =
+      .ok (ins.flatMap (fun it => ((childrenM d it.r).filter (nodeTestM d cfg a)).zipIdx.map (fun (r, i) => ⟨r, i + 1, 0⟩))) := by
+  simp [sel, h, bind, Except.bind, numbered, test]
+
+/-- a numeric predicate keeps exactly the candidate whose position equals the (truncated) number -/
+theorem numeric_predicate_is_position (x : F) (it : Item) (b : Bool) :
+    predDecision (.num x) it b = (toInt x == some (it.pos : Int)) := rfl
+
+/-- the merge rewrite evaluates the positional filter once per parent: the child plan is run with
+each parent as context and the results are concatenated in parent order -/
+theorem merge_is_per_parent (d : Doc) (cfg : ECfg) (inp child : Plan) (c : Ref) (ins : List Item)
+    (h : sel (F := F) d cfg inp c = .ok ins) :
+    sel (F := F) d cfg (.merge inp child) c =
+      (ins.mapM (fun it => sel (F := F) d cfg child it.r)).map (fun parts => plain (parts.flatten.map (·.r))) := by
+  simp only [sel, h, bind, Except.bind]
+  cases ins.mapM (fun it => sel (F := F) d cfg child it.r) <;> rfl
+
+/-- a parenthesised path numbers its nodes 1, 2, … over the whole sequence (`groupQuery.posit`) -/
+theorem group_positions_global (d : Doc) (cfg : ECfg) (inp : Plan) (c : Ref) (ins : List Item)
+    (h : sel (F := F) d cfg inp c = .ok ins) :
+    sel (F := F) d cfg (.group inp) c = .ok ((ins.map (·.r)).zipIdx.map (fun (r, i) => ⟨r, i + 1, 0⟩)) := by
+  simp [sel, h, bind, Except.bind, numbered]
+
 end XPathV.Theorems.C03
